@@ -141,3 +141,29 @@ var JSSlotMinPrec = map[string]string{
 	"CommaExpr.List":         "OpAssign", // §13.16 Expression , AssignmentExpression
 	"GroupExpr.X":            "OpExpr",   // ( Expression )
 }
+
+// JSLookaheadIdents are the identifiers on which ECMA-262 (§14.5 ExpressionStatement, §14.7.4 for, §14.7.5 for-in / for-of)
+// places a look-ahead restriction: `let [`, `let`, `async of`. Parenthesised, they may start those productions.
+var JSLookaheadIdents = []string{"let", "async"}
+
+// JSTokenEdition: the binary and assignment operators that are newer than ES5, by the name of their token constant in
+// parse/v2/js, with the edition of ECMA-262 that introduced them (`**` ES2016 §13.6; `??` ES2020 §13.13; `&&=` `||=` `??=`
+// ES2021 §13.15).
+var JSTokenEdition = map[string]int64{
+	"ExpToken": 2016, "ExpEqToken": 2016,
+	"NullishToken": 2020,
+	"AndEqToken":   2021, "OrEqToken": 2021, "NullishEqToken": 2021,
+}
+
+// JSHeadEvaluatedFirst: the slots of the statement nodes of parse/v2/js, as NodeType.Field, whose expression is evaluated before
+// anything else of the statement, exactly once, and in the scope that contains the statement (ECMA-262 §14). An expression
+// statement in front of the statement can be moved into such a slot with the comma operator.
+var JSHeadEvaluatedFirst = map[string]string{
+	"ExprStmt.Value":   "§14.5",
+	"ReturnStmt.Value": "§14.10",
+	"ThrowStmt.Value":  "§14.14",
+	"IfStmt.Cond":      "§14.6",
+	"SwitchStmt.Init":  "§14.12: the discriminant is evaluated before the block scope of the cases is created",
+	"WithStmt.Cond":    "§14.11",
+	"ForStmt.Init":     "§14.7.4: without a lexical declaration the init is evaluated in the enclosing scope",
+}
